@@ -93,13 +93,14 @@ class Dir:
             return False
         return tree.oid == hashlib.md5(canonical_dir_bytes(entries)).hexdigest() + ".dir"
 
-    def build(self, state_kind, sub=None):
+    def build(self, state_kind, sub=None, sp="plain"):
         from dvc_data.hashfile.build import build
         from dvc_data.hashfile.transfer import transfer
         from dvc_data.hashfile.tree import Tree
 
         odb = self.odb(state_kind)
         target = self.ws if sub is None else os.path.join(self.ws, *sub.split("/"))
+        target += {"plain": "", "slash": os.sep, "dslash": os.sep * 2}[sp]      # the caller's spelling of the directory
         staging, meta, obj = build(odb, target, self.fs, "md5", checksum_jobs=self.jobs)
         with obj.fs.open(obj.path, "rb") as fh:
             raw = fh.read()
@@ -130,7 +131,8 @@ def run_trace(case, seed):
                 d.edit(a["p"], a["c"])
                 events.append({"act": a, "res": {}})
             elif op == "Build":
-                obj, meta, parsed, loaded, raw = d.build(a["cfg"]["state"])
+                a = {**a, "cfg": {**a["cfg"], "sp": a["cfg"].get("sp") or ("plain", "slash", "dslash")[(case["id"] + len(events)) % 3]}}
+                obj, meta, parsed, loaded, raw = d.build(a["cfg"]["state"], sp=a["cfg"]["sp"])
                 lst = d.listing_of(obj)
                 d.last_obj, d.last_state = obj, a["cfg"]["state"]
                 nfiles_ok = meta.nfiles == len(lst)
@@ -164,6 +166,9 @@ def run_trace(case, seed):
                 obj = d.last_obj
                 key = tuple(PATHS[SUBDIRS[a["d"]][0]].split("/")[: len(a["d"].split("/"))])
                 sub = obj.get_obj(d.odb(d.last_state), key)
+                if sub is None:   # the prefix is not in the tree the library built: an observation, judged by TLC
+                    events.append({"act": a, "res": {"listing": [], "oid_canon": False, "direct_same": False}})
+                    continue
                 direct, _m, _p, _l, raw = d.build(d.last_state, sub="/".join(key))
                 # listing of the sub-object is relative to the sub-directory: re-prefix for comparison
                 lst = sorted([REV.get("/".join(key + k), "?"), d.rev_digest.get(hi.value, "corrupt")] for k, _mm, hi in sub)
